@@ -46,6 +46,8 @@ template<class A> static void sweep(int op,const Text&x,const Text&y,unsigned ar
 VH_DRIVER(fault){
   g_only=atoi(arg_value(argc,argv,"--only","-1")); Rng R(g.seed); long runs=0; bool th=g.thorough;
   std::vector<Text> uris; for(const char*s:{"s://u@h:1/a/b?q#f","//[::1]/x/y","//1.2.3.4:80/a","//[v1.x]:9/p/q/r","s:a/b/c","/a/b/../c/./d","a/./b/../../c","S://U%41@H%42:1/%41a/%42b/../c?%43#%44","http://user@example.org:8080/a/b?q=1#f","//h:1/x","s://h/a/b/..","s://h/a/b/c/d/../x/..","file:///","","?q","#f","//h","s:/./a//b","b:c/../d:e","../../x","s://h//",
+    // every host kind with EVERY other component present (each component is one more request that can fail with the others already made)
+    "s://u@[v7.X:y]:1/p/q?k=v#f","S://U%41@[2001:DB8::1]:8/P/./q?K=%7e#F","s://u:p@9.8.7.6:5/a/b?c#d","s://u@Reg%2dName.EX:80/p/q?k=v#f","//@[vA.b]?q","//[::]#f",
     // dot removal exposes a first segment that needs the "." guard back (the re-insertion allocates: its failure is a path of its own)
     "./a:b","x/../a:b/c",".//a","x:/.//y","/a/..//b","s:/..//b","a/..//b","%2e/a:b","s:x/..//y/../z"}) uris.push_back(T(s));
   long nuri=atol(arg_value(argc,argv,"--uris",th?"60":"0"));
